@@ -79,9 +79,9 @@ theorem keepFail_closedH (s3 : BSt) :
 /-- the idle branch of `_poll` after the read pass -/
 def idleTail (inj : BSt → Nat → BSt) (s1 : BSt) : BSt :=
   let s2 := inj s1 5
-  let s3 := checkFailures inj (flushSinks s2)
+  let s3 := checkFailures inj (flushGate inj s2 s2.cfg.flushInterval)
   let r := allEmpty s3
-  if r.2 then cleanupLoggers inj (cleanupContexts r.1) else r.1
+  if r.2 then cleanupLoggers inj (preEraseFlush (cleanupContexts r.1)) else r.1
 
 theorem poll_idle (inj : BSt → Nat → BSt) (s : BSt) (h : (populate inj s).2 = 0) :
     poll inj s = idleTail inj (populate inj s).1 := by
@@ -91,33 +91,44 @@ theorem poll_idle (inj : BSt → Nat → BSt) (s : BSt) (h : (populate inj s).2 
   dsimp only at h ⊢
   rw [if_neg (by simp [h])]
 
+theorem flushGate_frame {inj : BSt → Nat → BSt} (hq : QuietInj inj) (s : BSt) (n : Nat) : Frame s (flushGate inj s n) := by
+  unfold flushGate
+  split
+  · exact flushSinks_frame _
+  · dsimp only
+    split
+    · have h1 : Frame (inj s 7) { inj s 7 with lastFlush := (inj s 7).now } :=
+        Frame.of_eq rfl rfl rfl rfl rfl rfl rfl rfl rfl rfl rfl rfl rfl (fun _ hf => hf)
+      exact ((hq s 7).trans h1).trans (flushSinks_frame _)
+    · exact hq s 7
+
 /-- **the idle pass drains the failure counters**: run without a frontend step in between, from a state whose cache
     covers the registry, it ends with `fail = 0` for every context that is still registered -/
 theorem idleTail_clears {inj : BSt → Nat → BSt} (hq : QuietInj inj) (s1 : BSt)
     (hc : ∀ i ∈ s1.registry, i ∈ s1.cache) (i : Nat) (hi : i ∈ (idleTail inj s1).registry) :
     ((idleTail inj s1).th i).fail = 0 := by
-  have f2 := (hq s1 5).trans (flushSinks_frame (inj s1 5))
-  obtain ⟨_, c2, c3, c4⟩ := cfFoldQ_clears hq (flushSinks (inj s1 5)).cache (flushSinks (inj s1 5))
+  have f2 := (hq s1 5).trans (flushGate_frame hq (inj s1 5) (inj s1 5).cfg.flushInterval)
+  obtain ⟨_, c2, c3, c4⟩ := cfFoldQ_clears hq (flushGate inj (inj s1 5) (inj s1 5).cfg.flushInterval).cache (flushGate inj (inj s1 5) (inj s1 5).cfg.flushInterval)
   rw [← checkFailures_eq] at c2 c3 c4
   -- in `s3` every registered context has a zero counter
-  have h3 : ∀ j ∈ (checkFailures inj (flushSinks (inj s1 5))).registry,
-      ((checkFailures inj (flushSinks (inj s1 5))).th j).fail = 0 := by
+  have h3 : ∀ j ∈ (checkFailures inj (flushGate inj (inj s1 5) (inj s1 5).cfg.flushInterval)).registry,
+      ((checkFailures inj (flushGate inj (inj s1 5) (inj s1 5).cfg.flushInterval)).th j).fail = 0 := by
     intro j hj
     apply c2 j
     rw [f2.cache]
     apply hc
     rw [← f2.registry, ← c4]; exact hj
-  have hH := keepFail_closedH (checkFailures inj (flushSinks (inj s1 5)))
-  have hP0 : (fun s => (∀ j, (s.th j).fail = ((checkFailures inj (flushSinks (inj s1 5))).th j).fail) ∧
-      ∀ j ∈ s.registry, j ∈ (checkFailures inj (flushSinks (inj s1 5))).registry)
-      (checkFailures inj (flushSinks (inj s1 5))) := ⟨fun _ => rfl, fun _ h => h⟩
+  have hH := keepFail_closedH (checkFailures inj (flushGate inj (inj s1 5) (inj s1 5).cfg.flushInterval))
+  have hP0 : (fun s => (∀ j, (s.th j).fail = ((checkFailures inj (flushGate inj (inj s1 5) (inj s1 5).cfg.flushInterval)).th j).fail) ∧
+      ∀ j ∈ s.registry, j ∈ (checkFailures inj (flushGate inj (inj s1 5) (inj s1 5).cfg.flushInterval)).registry)
+      (checkFailures inj (flushGate inj (inj s1 5) (inj s1 5).cfg.flushInterval)) := ⟨fun _ => rfl, fun _ h => h⟩
   have hA := allEmpty_closed hH _ hP0
-  have hF : (∀ j, ((idleTail inj s1).th j).fail = ((checkFailures inj (flushSinks (inj s1 5))).th j).fail) ∧
-      ∀ j ∈ (idleTail inj s1).registry, j ∈ (checkFailures inj (flushSinks (inj s1 5))).registry := by
+  have hF : (∀ j, ((idleTail inj s1).th j).fail = ((checkFailures inj (flushGate inj (inj s1 5) (inj s1 5).cfg.flushInterval)).th j).fail) ∧
+      ∀ j ∈ (idleTail inj s1).registry, j ∈ (checkFailures inj (flushGate inj (inj s1 5) (inj s1 5).cfg.flushInterval)).registry := by
     unfold idleTail
     dsimp only
     split
-    · exact cleanupLoggers_closed hH inj (fun s site hs => hH.frame s _ hs (hq s site)) _ (cleanupContexts_closed hH _ hA)
+    · exact cleanupLoggers_closed hH inj (fun s site hs => hH.frame s _ hs (hq s site)) _ (preEraseFlush_closed hH _ (cleanupContexts_closed hH _ hA))
     · exact hA
   rw [hF.1 i]
   exact h3 i (hF.2 i hi)
